@@ -61,7 +61,10 @@ theorem line_effect_depends_on_metrics_only (o : Oracle) (p : Prog) (fuel : Nat)
 theorem source_shape :
     Generated.VM.memoKeyFields = ["layout:string", "value:string"] ∧
     Generated.VM.memoAddGuard = "!v.terminate" ∧
-    Generated.VM.memoCapacity = "64" ∧ memoCap = 64 := by decide
+    Generated.VM.memoCapacity = "64" ∧ memoCap = 64 ∧
+    -- nothing of a line's control state reaches the next line: the terminate flag is cleared right
+    -- after the instruction that set it, and a panic is turned into that flag inside `execute`
+    Generated.VM.terminateResetAfterExecute = true ∧ Generated.VM.executeRecoversPanics = true := by decide
 
 /-- why the key needs the layout: a memo keyed by the value alone is not coherent — one entry would
     have to equal two different parses -/
